@@ -4,27 +4,36 @@ from .. import vf
 
 def load(path):
     d = {}
+    tags = {}
     with open(path) as f:
         for line in f:
-            a, b = line.split()
-            d[int(a)] = b
+            parts = line.split()
+            d[int(parts[0])] = parts[1]
+            tags[int(parts[0])] = parts[2] if len(parts) > 2 else "-"
+    load.tags = tags
     return d
 
 
 def compare(ctx, name, base_file, other_file, env, known, what):
     """Report every case whose digest differs between the two runs. Returns (#cases compared, #different)."""
     a, b = load(base_file), load(other_file)
+    tags = load.tags
     ids = sorted(set(a) & set(b))
     diff = [i for i in ids if a[i] != b[i]]
     missing = len(set(a) ^ set(b))
     if missing:
         ctx.notes.append("%s: %d cases present in only one environment" % (name, missing))
-    for i in diff[:10]:
-        rec = {"kind": "env_difference", "universe": name, "case_id": i, "env": env, "digest_default": a[i], "digest_env": b[i],
+    shown = 0
+    by_tag = {}
+    for i in diff:
+        by_tag.setdefault(tags.get(i, "-"), []).append(i)
+    for tag, lst in sorted(by_tag.items()):
+      for i in lst[:3]:
+        rec = {"kind": "env_difference", "universe": name, "case_id": i, "env": env, "tag": tag, "count_with_tag": len(lst), "digest_default": a[i], "digest_env": b[i],
                "how": "re-run `vh %s` on the same dump with VERIF_OBS_LOG=1 in both environments and diff the logs of case %d" % (name, i)}
         fid = vf.match_known(known, rec)
         if fid:
             ctx.known_hits[fid] = ctx.known_hits.get(fid, 0) + 1
         else:
-            vf.violation(ctx, "%s: case %d of the %s universe is observably different under %s" % (what, i, name, env), rec)
+            vf.violation(ctx, "%s: case %d (%s) of the %s universe is observably different under %s" % (what, i, tag, name, env), rec)
     return len(ids), len(diff)
